@@ -384,3 +384,41 @@ K.loop(1, var="i", invariant=["0 <= i and i <= ncells and npoints >= 1", "forall
 K.loop(2, var="j", invariant=["0 <= j and j <= npoints and 0 <= jmin and jmin < npoints"])
 K.loop(3, var="j", invariant=["0 <= j and j <= npoints and npoints >= 1",
                                "forall(q, 0 <= q < npoints, weights[q] >= 0 or ncells == 0)"])
+
+
+# ---- functional contract (C16): the weight of point j is the fraction of the catchment cells whose NEAREST point is j, a tie going to the lowest index
+K = F.kernel("c_voronoi#nearest")
+K.requires(SANE_GRID)
+K.requires("ncells >= 1 and ncells <= 2**40 and npoints >= 1 and npoints <= 2**40")
+K.requires("valid(idxcells_area, ncells) and valid(xypoints, 2*npoints) and valid(weights, npoints)")
+K.requires("separated(idxcells_area, xypoints, weights)")
+K.requires("not isnan(xll) and not isnan(yll) and not isnan(csz)")
+K.requires("forall(k, 0 <= k < ncells, valid_cell(nrows, ncols, idxcells_area[k]))")
+K.requires("forall(q, 0 <= q < 2*npoints, not isnan(xypoints[q]))")
+# distance from the centre of the k-th catchment cell to point j, written exactly as the code computes it
+K.ghost("cx(k)", "real", "centre_x(xll, csz, col_of(ncols, idxcells_area[k]))")
+K.ghost("cy(k)", "real", "centre_y(nrows, yll, csz, row_of(ncols, idxcells_area[k]))")
+K.ghost("dst(k, j)", "real", "sqrt((cx(k) - xypoints[2*j])*(cx(k) - xypoints[2*j]) + (cy(k) - xypoints[2*j+1])*(cy(k) - xypoints[2*j+1]))")
+# the search starts from the distance 1e30: every cell has a point closer than that (true for any realistic coordinates; stated, not hidden)
+K.requires("forall(k, 0 <= k < ncells, exists(j, 0 <= j < npoints, dst(k, j) < 1e30))")
+# nr(k): THE nearest point of cell k (first minimiser).  It is introduced by its defining property; such a function exists because a finite
+# non-empty set of reals has a least element with a lowest index (elementary; not machine-checked here, listed as an assumption)
+K.ghost("best(k, n)", "int", "ite(n <= 1, 0, ite(dst(k, n - 1) < dst(k, best(k, n - 1)), n - 1, best(k, n - 1)))", decreases="n")      # used to evaluate nr concretely
+K.ghost("nr(k)", "int", None, concrete="best(k, npoints)")
+K.requires("forall(k, 0 <= k < ncells, 0 <= nr(k) and nr(k) < npoints and forall(j, 0 <= j < npoints, dst(k, nr(k)) <= dst(k, j)) and "
+           "forall(j, 0 <= j < nr(k), dst(k, j) > dst(k, nr(k))), nr(k))")
+K.ghost("cnt(j, n)", "int", "ite(n <= 0, 0, cnt(j, n - 1) + ite(nr(n - 1) == j, 1, 0))", decreases="n")
+K.assigns("weights[0:npoints]")
+K.ensures("result == 0", props=["C16"])
+K.ensures("forall(j, 0 <= j < npoints, not isnan(weights[j]) and weights[j] == real(cnt(j, ncells))/real(ncells))", props=["C16"])
+K.loop(0, var="j", invariant=["0 <= j and j <= npoints", "forall(q, 0 <= q < j, not isnan(weights[q]) and weights[q] == 0)"])
+K.loop(1, var="i", invariant=["0 <= i and i <= ncells", "forall(q, 0 <= q < npoints, not isnan(weights[q]) and weights[q] == real(cnt(q, i)))"])
+K.loop(2, var="j", invariant=[
+    "0 <= i and i < ncells and 0 <= j and j <= npoints and 0 <= jmin and jmin < npoints and not isnan(distmin)",
+    "not isnan(xy[0]) and not isnan(xy[1]) and xy[0] == cx(i) and xy[1] == cy(i)",
+    "forall(q, 0 <= q < j, dst(i, q) >= distmin)",
+    "(distmin == 1e30 and jmin == 0) or (jmin < j and distmin == dst(i, jmin) and forall(q, 0 <= q < jmin, dst(i, q) > distmin))",
+    "forall(q, 0 <= q < npoints, not isnan(weights[q]) and weights[q] == real(cnt(q, i)))"])
+K.loop(3, var="j", invariant=["0 <= j and j <= npoints",
+                               "forall(q, 0 <= q < j, not isnan(weights[q]) and weights[q] == real(cnt(q, ncells))/real(ncells))",
+                               "forall(q, j <= q < npoints, not isnan(weights[q]) and weights[q] == real(cnt(q, ncells)))"])
